@@ -25,6 +25,7 @@
 #include <tbox/base/log.h>
 #include <tbox/base/assert.h>
 #include <tbox/base/wrapped_recorder.h>
+#include <tbox/base/verif_hook.h>
 
 namespace tbox {
 namespace event {
@@ -56,13 +57,18 @@ Loop::RunId CommonLoop::allocRunNextId()
 Loop::RunId CommonLoop::runInLoop(Func &&func, const std::string &what)
 {
     RECORD_SCOPE();
+    CPP_TBOX_VERIF_POINT("loop.ril.enter", 0, 0);
     std::lock_guard<std::recursive_mutex> g(lock_);
 
     RunId run_id = allocRunInLoopId();
     run_in_loop_func_queue_.emplace_back(RunFuncItem(run_id, std::move(func), what));
+#ifdef CPP_TBOX_VERIF
+    bool verif_had_req = has_commit_run_req_;
+#endif
 
     if (sp_run_read_event_ != nullptr)
         commitRunRequest();
+    CPP_TBOX_VERIF_POINT("loop.ril.push", run_id, (has_commit_run_req_ && !verif_had_req));
 
     auto queue_size = run_in_loop_func_queue_.size();
     if (queue_size > water_line_.run_in_loop_queue_size)
@@ -85,6 +91,7 @@ Loop::RunId CommonLoop::runNext(Func &&func, const std::string &what)
     RECORD_SCOPE();
     RunId run_id = allocRunNextId();
     run_next_func_queue_.emplace_back(RunFuncItem(run_id, std::move(func), what));
+    CPP_TBOX_VERIF_POINT("loop.next.push", run_id, 0);
 
     auto queue_size = run_next_func_queue_.size();
     if (queue_size > water_line_.run_next_queue_size)
@@ -170,6 +177,7 @@ void CommonLoop::handleNextFunc()
      * 的任务也可以被cancel。
      */
     run_next_func_queue_.swap(tmp_func_queue_);
+    CPP_TBOX_VERIF_POINT("loop.swap.next", tmp_func_queue_.size(), run_next_func_queue_.size());
 
     while (!tmp_func_queue_.empty()) {
         auto item = tmp_func_queue_.front();
@@ -208,6 +216,7 @@ void CommonLoop::handleRunInLoopFunc()
         std::lock_guard<std::recursive_mutex> g(lock_);
         run_in_loop_func_queue_.swap(tmp_func_queue_);
         finishRunRequest();
+        CPP_TBOX_VERIF_POINT("loop.swap.in", tmp_func_queue_.size(), run_in_loop_func_queue_.size());
     }
 
     while (!tmp_func_queue_.empty()) {
@@ -242,6 +251,7 @@ void CommonLoop::cleanupDeferredTasks()
 
         RunFuncQueue run_next_tasks = std::move(run_next_func_queue_);
         RunFuncQueue run_in_loop_tasks = std::move(run_in_loop_func_queue_);
+        CPP_TBOX_VERIF_POINT("loop.drain.gen", run_next_tasks.size(), run_in_loop_tasks.size());
 
         while (!run_next_tasks.empty()) {
             RunFuncItem &item = run_next_tasks.front();
